@@ -430,3 +430,86 @@ class AddAsSource(Contract):
 
 CONTRACTS = [ModuleMatch(), VectorMatch(), ModuleOverhangStart(), ModuleOverhangEnd(), VectorOverhangStart(),
              VectorOverhangEnd(), ModuleTarget(), VectorTarget(), VectorPlaceholder(), AddAsSource()]
+
+
+# ------------------------------------------------------------------------------------------------ cutter_check / __new__
+from pyvc.values import NOTIMPL  # noqa: E402
+from pyvc import models_moclo as M  # noqa: E402
+
+UTILS = "moclo/moclo/core/_utils.py"
+
+
+class CutterCheck(Contract):
+    """a class can be instantiated only with a declared, non-blunt, known cutter"""
+    file, qual = UTILS, "cutter_check"
+    props = ("C17", "C05")
+    variants = ("declared", "not-declared")
+    inline_at_call_sites = True
+
+    def setup(self, ex, st, variant):
+        if variant == "declared":
+            st2, c = M.mk_cutter(st, tm.V("enzyme", INT))
+            st.heap.update(st2.heap)
+        else:
+            c = NOTIMPL
+        return dict(cutter=c, name=VT(tm.V("name", STR)))
+
+    def raises(self, ex, st, a):
+        c = a["cutter"]
+        if not isinstance(c, VObj):
+            return [("NotImplementedError", tm.TRUE, None)]
+        e = st.get(c, "ident").t
+        return [("ValueError", tm.or_(tm.app("is_blunt", BOOL, e), tm.app("is_unknown", BOOL, e)), None)]
+
+    def ensures(self, ex, pre, st, a, result):
+        return [("returns-nothing", tm.B(isinstance(result, VNone)))]
+
+    def result(self, ex, st, a):
+        return [(st, NONE)]
+
+
+class _New(Contract):
+    """__new__: the cutter is checked before anything is built; the new object is an instance of the class asked for"""
+    props = ("C17", "C05")
+    variants = ("declared", "not-declared")
+    inline_at_call_sites = True
+    base = None
+
+    def setup(self, ex, st, variant):
+        cls = ex.models.sym_class(self.base, tm.V("cls", INT))
+        if variant == "declared":
+            st2, c = M.mk_cutter(st, tm.V("enzyme", INT))
+            st.heap.update(st2.heap)
+        else:
+            c = NOTIMPL
+        cls.attrs_override = {"cutter": c}
+        self.cutter = c
+        return dict(cls=cls, __varargs__=[VT(tm.V("record_arg", INT))])
+
+    def raises(self, ex, st, a):
+        c = self.cutter
+        if not isinstance(c, VObj):
+            return [("NotImplementedError", tm.TRUE, None)]
+        e = st.get(c, "ident").t
+        return [("ValueError", tm.or_(tm.app("is_blunt", BOOL, e), tm.app("is_unknown", BOOL, e)), None)]
+
+    def ensures(self, ex, pre, st, a, result):
+        return [("a-new-instance-of-the-class", tm.B(isinstance(result, VObj) and result.kind == a["cls"].name))]
+
+    def result(self, ex, st, a):
+        return [(st, VObj(a["cls"].name))]
+
+
+class ModuleNew(_New):
+    file, qual, base = "moclo/moclo/core/modules.py", "AbstractModule.__new__", "AbstractModule"
+
+
+class VectorNew(_New):
+    file, qual, base = "moclo/moclo/core/vectors.py", "AbstractVector.__new__", "AbstractVector"
+
+
+class PartNew(_New):
+    file, qual, base = "moclo/moclo/core/parts.py", "AbstractPart.__new__", "AbstractPart"
+
+
+CONTRACTS += [CutterCheck(), ModuleNew(), VectorNew(), PartNew()]
